@@ -464,7 +464,9 @@ def run_czar(exe, case, scratch, timeout=30.0):
         dirs.append(d)
     res = []
     with W.Team(exe, n, dirs, timeout_ms=4000) as T:
-        setup = ["natoms 1", "samestep 1", "temperature 300", "dt 1", "new", "config EOF"] + czar_conf(case) + \
+        # the total force on an extended-Lagrangian coordinate is the one of the previous step: with same-step forces the
+        # ABF and CZAR gradient sums stay zero
+        setup = ["natoms 1", "samestep 0", "temperature 300", "dt 1", "new", "config EOF"] + czar_conf(case) + \
                 ["EOF", "outprefix out", "show cv 0 energy 0 bias 0 atomf 0"]
         for r in T.all_do(setup, timeout):
             if not any(x.startswith("CONFIG err=ok") for x in r):
